@@ -49,7 +49,11 @@ def main():
             signal.alarm(5)
             try:
                 v = fn(*args)
-                row.append(v if isinstance(v, int) and not isinstance(v, bool) else "%s:%r" % (type(v).__name__, v))
+                if isinstance(v, int) and not isinstance(v, bool):
+                    # very large results are reported by their residue (json and int->str conversion have digit limits)
+                    row.append(v if abs(v) < 10 ** 15 else "big:%d" % (v % 1000000007))
+                else:
+                    row.append("%s:%r" % (type(v).__name__, v))
             except Timeout:
                 row.append("!Timeout")
             except BaseException as e:
